@@ -9,7 +9,8 @@
  * buffer-size argument is a sum over all elements that env.h's nondeterministic strlen cannot carry from the
  * first loop to the second; within the bound below the real loop strlen/strcpy/strcat are executed instead.
  * Every token and the separator end at the last byte of their objects.  strings.c is the unannotated
- * "../src/strings.c" of the tree under check. */
+ * rawsrc/strings.c of the tree under check.  Native replay (`native: self`): inputs W_cnt, W_sep, W_l0..W_l2,
+ * W_t00..W_t21 (token lengths and characters), W_gk2. */
 
 /*@unit
 name: join.roundtrip
@@ -19,6 +20,7 @@ tier: B
 bound: 1..3 tokens of 1..2 characters over {a,b}; separators ":", " ", " :" (split with ":", NULL, " :"); loops unwound 12
 unwind: 12
 backend: cadical
+native: self
 timeout: 900
 mem: 16
 funcs: spiftool_join, spiftool_split
@@ -31,6 +33,7 @@ tier: B
 bound: 1..3 tokens of 0..2 characters over {a,b}; separator NULL or ""; loops unwound 12
 unwind: 12
 backend: cadical
+native: self
 timeout: 900
 mem: 16
 funcs: spiftool_join
@@ -43,7 +46,7 @@ funcs: spiftool_join
 #include "split.h"
 #define VERIF_MAXLEN 7
 #include "ref.h"
-#include "../src/strings.c"
+#include "rawsrc/strings.c"
 
 #define NTOK 3
 #define TLEN 2
@@ -54,15 +57,19 @@ static char v_s0[1] = "";
 unsigned w_cnt, w_sep, w_tl[NTOK];
 char w_tok[NTOK][TLEN + 1];
 
-/* a token of length lo..TLEN over {a,b}; its terminator is the last byte of its object */
-static char *mk_token(unsigned lo, unsigned slot)
+/* a token of length lo..TLEN over {a,b}; cbmc: its terminator is the last byte of its object; native: exact malloc block */
+static char *mk_token(unsigned lo, unsigned slot, unsigned len, int b0, int b1)
 {
-    unsigned len = nondet_uint(), j;
+    unsigned j;
     char *t;
     __CPROVER_assume(len >= lo && len <= TLEN);
+#ifdef VERIF_NATIVE
+    t = (char *) malloc(len + 1);
+#else
     t = (char *) __CPROVER_allocate(TLEN + 1, 0) + (TLEN - len);
+#endif
     for (j = 0; j < len; j++) {
-        t[j] = nondet_bool() ? 'a' : 'b';
+        t[j] = ((j == 0) ? b0 : b1) ? 'a' : 'b';
         w_tok[slot][j] = t[j];
     }
     t[len] = 0;
@@ -74,24 +81,30 @@ static char *mk_token(unsigned lo, unsigned slot)
 void harness(void)
 {
     spif_charptr_t list[NTOK + 1];
-    unsigned cnt = nondet_uint(), i, k;
+    unsigned cnt = (unsigned) VND(uint, cnt), i, k;
     char *sep, *delim;
     spif_charptr_t joined;
+    unsigned tl[NTOK];
+    int tb[NTOK][TLEN];
 
-    vg_k = nondet_size_t();
-    vg_k2 = nondet_size_t();
+    vg_k = 0;
+    vg_k2 = (size_t) VND(size_t, gk2);
     __CPROVER_assume(cnt >= 1 && cnt <= NTOK);
     w_cnt = cnt;
+    tl[0] = (unsigned) VND(uint, l0); tl[1] = (unsigned) VND(uint, l1); tl[2] = (unsigned) VND(uint, l2);
+    tb[0][0] = (int) VND(bool, t00); tb[0][1] = (int) VND(bool, t01);
+    tb[1][0] = (int) VND(bool, t10); tb[1][1] = (int) VND(bool, t11);
+    tb[2][0] = (int) VND(bool, t20); tb[2][1] = (int) VND(bool, t21);
     for (i = 0; i < NTOK; i++) {
 #ifdef U_ROUNDTRIP
-        list[i] = (i < cnt) ? (spif_charptr_t) mk_token(1, i) : (spif_charptr_t) NULL;
+        list[i] = (i < cnt) ? (spif_charptr_t) mk_token(1, i, tl[i], tb[i][0], tb[i][1]) : (spif_charptr_t) NULL;
 #else
-        list[i] = (i < cnt) ? (spif_charptr_t) mk_token(0, i) : (spif_charptr_t) NULL;
+        list[i] = (i < cnt) ? (spif_charptr_t) mk_token(0, i, tl[i], tb[i][0], tb[i][1]) : (spif_charptr_t) NULL;
 #endif
     }
     list[NTOK] = NULL;
 
-    k = nondet_uint();
+    k = (unsigned) VND(uint, sep);
 #ifdef U_ROUNDTRIP
     __CPROVER_assume(k < 3);
     sep = (k == 0) ? v_s1 : ((k == 1) ? v_s2 : v_s3);
